@@ -265,3 +265,102 @@ def c18_fused(d):
               return {"status": "confirmed", "observed": desc,
                       "expected": "pre-activation representable in the reported fused accumulator type"}
   return {"status": "refuted", "observed": desc}
+
+
+@replayer("c18_chain")
+def c18_chain(d):
+  """Non-MAC branches: the real generate_layer_data_type_map on a real networkx graph with real QActivation / Flatten /
+  Add layers; the values the activation quantizer can emit must be members of the reported output type, the merge
+  operator must be built from the producers' types in edge order."""
+  import networkx as nx
+  import tensorflow as tf
+  from qkeras import QActivation
+  from qkeras.qtools import generate_layer_data_type_map as G
+  w = d["witness"] or {}
+  rp = w.get("__replay__") or {}
+  kind, qk, qmv = rp.get("kind"), rp.get("qk"), rp.get("qmv")
+  clause = d["clause"]
+  xq = build_qkeras("qbits", None, w, "x")
+  g = nx.DiGraph()
+  g.add_node(-1, layer=[None], type=[None], out_quantizer=None)
+  g.add_node(-2, layer=[None], type=[None], out_quantizer=None)
+  shp = (None, 8)
+  if kind == "activation":
+    q = build_qkeras(qk, qmv, w, "a")
+    layer = QActivation(q, name="act0")
+    layer.build((1, 8))
+    g.add_node(0, layer=[layer], type=["QActivation"], out_quantizer=None)
+    g.add_edge(-1, 0, shape=shp, tensor="t0", quantizer=xq)
+    g.add_edge(0, -2, shape=None, tensor="t1", quantizer=None)
+    last = 0
+  elif kind == "passthrough":
+    layer = tf.keras.layers.Flatten(name="flat0")
+    g.add_node(0, layer=[layer], type=["Flatten"], out_quantizer=None)
+    g.add_edge(-1, 0, shape=shp, tensor="t0", quantizer=xq)
+    g.add_edge(0, -2, shape=None, tensor="t1", quantizer=None)
+    last = 0
+  else:
+    qa, qb = build_qkeras("qbits", None, w, "a"), build_qkeras("qrelu", None, w, "b")
+    a0, a1 = QActivation(qa, name="act_a"), QActivation(qb, name="act_b")
+    layer = tf.keras.layers.Add(name="add0")
+    g.add_node(0, layer=[a0], type=["QActivation"], out_quantizer=None)
+    g.add_node(1, layer=[a1], type=["QActivation"], out_quantizer=None)
+    g.add_node(2, layer=[layer], type=["Add"], out_quantizer=None)
+    g.add_edge(-1, 0, shape=shp, tensor="t0", quantizer=xq)
+    g.add_edge(-1, 1, shape=shp, tensor="t1", quantizer=xq)
+    g.add_edge(0, 2, shape=shp, tensor="t2", quantizer=None)
+    g.add_edge(1, 2, shape=shp, tensor="t3", quantizer=None)
+    g.add_edge(2, -2, shape=None, tensor="t4", quantizer=None)
+    last = 2
+  try:
+    lmap = G.generate_layer_data_type_map(g, [], False)["layer_data_type_map"]
+  except Exception as e:  # pylint: disable=broad-except
+    if clause == "no_raise":
+      return {"status": "confirmed", "observed": "raised %s: %s" % (type(e).__name__, e)}
+    return {"status": "error", "detail": "map construction raised %s: %s" % (type(e).__name__, e)}
+  if clause == "no_raise":
+    return {"status": "refuted", "observed": "no exception"}
+  if layer not in lmap:
+    return {"status": "confirmed" if clause == "entry" else "error", "observed": "no map entry for the layer"}
+  ent = lmap[layer]
+  get = (lambda k: ent[k]) if isinstance(ent, dict) else (lambda k: getattr(ent, k))
+  outq = get("output_quantizer")
+  if clause == "entry":
+    return {"status": "refuted"}
+  if clause in ("activation_fits", "output_holds_input", "input_fits"):
+    if clause == "activation_fits":
+      vals, _ = operand_values(qk, qmv, w, "a", q)
+      t = outq
+    else:
+      vals, _ = operand_values("qbits", None, w, "x", xq)
+      t = outq if clause == "output_holds_input" else get("input_quantizer_list")[0]
+    for v in vals:
+      if not member(t, v):
+        return {"status": "confirmed", "observed": {"type": _desc(t), "value": str(v)},
+                "expected": "value representable in the reported type"}
+    return {"status": "refuted", "observed": {"type": _desc(t), "values_tried": len(vals)}}
+  if clause == "out_edge":
+    eq = g[last][-2]["quantizer"]
+    want = q if kind == "activation" else (get("input_quantizer_list")[0] if kind == "passthrough" else get("multiplier").output)
+    return {"status": "refuted" if eq is want else "confirmed", "observed": {"edge": str(eq)}}
+  if clause in ("operand_a_fits", "operand_b_fits"):
+    which, kq, pfx, qq = (a0, "qbits", "a", qa) if clause == "operand_a_fits" else (a1, "qrelu", "b", qb)
+    e2 = lmap[which]
+    t = e2["output_quantizer"] if isinstance(e2, dict) else e2.output_quantizer
+    vals, _ = operand_values(kq, None, w, pfx, qq)
+    for v in vals:
+      if not member(t, v):
+        return {"status": "confirmed", "observed": {"type": _desc(t), "value": str(v)}}
+    return {"status": "refuted"}
+  if clause == "merge_built_from_edges":
+    m = get("multiplier")
+    ea, eb = lmap[a0], lmap[a1]
+    oa = ea["output_quantizer"] if isinstance(ea, dict) else ea.output_quantizer
+    ob = eb["output_quantizer"] if isinstance(eb, dict) else eb.output_quantizer
+    # re-make the merge operator from the producers' reported types and compare the output type
+    from qkeras.qtools import quantized_operators
+    ref = quantized_operators.MergeFactory().make_quantizer([(oa, None), (ob, None)], "Add")
+    same = all(getattr(ref.output, f) == getattr(m.output, f) == getattr(outq, f) for f in ("bits", "int_bits", "is_signed"))
+    return {"status": "refuted" if same else "confirmed",
+            "observed": {"merge_output": _desc(m.output), "from_producer_types": _desc(ref.output), "layer_output": _desc(outq)}}
+  return {"status": "unsupported", "detail": "clause %s" % clause}
